@@ -33,7 +33,8 @@ MANIFEST = {
             'the simulator oracle, not modelled. Coq executable instance only for prime fields (ZpOps) and bit vectors; '
             'odd-characteristic extension fields are checked against the finfields oracle only. Mask r of the model '
             'reciprocal is chosen by the harness (result proved independent of r<>0). SecFld(4) with m>=4,t>0 is refused by '
-            'an assert in sectypes (not a wrong result). Known finding: to_bits on a lifted odd prime field.',
+            'an assert in sectypes (not a wrong result). Known findings: F-C04-1 to_bits on a lifted odd prime field (TypeError, hangs); '
+            'F-C04-2 lifted type times/divided by a public int outside [0,q) leaves the requested field (checked on raw outputs).',
     'technique': 'Coq proof over abstract field + multi-party simulator differential check vs finfields oracle and vm_compute model',
 }
 
@@ -275,6 +276,19 @@ def run(ctx):
 def _run(ctx):
     import mpyc.finfields as FF0
     ok = ctx.build(['MPyC.SecFld']) and ctx.check_props()
+    # on a broken tree thousands of outputs can be wrong: keep the first 60 replay files, count the rest
+    _viol, _new = ctx.violation, [0, 0]
+
+    def capped(sig, detail, found_input=True):
+        if _new[0] >= 60:
+            _new[1] += 1
+            ctx.extra['violations_not_written'] = _new[1]
+            return 'new'
+        r = _viol(sig, detail, found_input)
+        if r == 'new':
+            _new[0] += 1
+        return r
+    ctx.violation = capped
     rng = ctx.rng
     configs = [(1, 0), (2, 0), (3, 1), (4, 1), (5, 2)] + ctx.n([], [(5, 1), (6, 2), (7, 3)])
     fields = field_list(ctx)
@@ -322,7 +336,7 @@ def _run(ctx):
                 if not sim.started:
                     ctx.violation('sim-start-failed ' + cfg, {'cfg': cfg, 'start': repr(st)})
                     continue
-                res = sim.run(make_prog(specs), idle_limit=1500 if m > 1 else 10 ** 8)
+                res = sim.run(make_prog(specs), idle_limit=10 ** 8 if m == 1 else 3000 if t > 0 else 50000)
                 if all(r != 'PENDING' for r in res):
                     sim.shutdown()
             finally:
